@@ -35,6 +35,12 @@ RANDOM_AT_ZERO = {'Div', 'Mod'}
 
 def stateless(leaf):
     n = type(leaf).__name__
+    if n == 'BidirBuf':
+        # with its output enable at 0 a BidirBuf is a plain reader: pin = value of the bidirectional wire
+        try:
+            return leaf.poe.get() == 0
+        except Exception:
+            return False
     if n in NOT_STATELESS:
         return False
     if n in RANDOM_AT_ZERO:
@@ -54,7 +60,7 @@ def leaf_driver(leaf):
         return None
 
 
-def fixpoint_check(run, sim, when, case, stats, leaves=None, gated_off=(), extra=None):
+def fixpoint_check(run, sim, when, case, stats, leaves=None, gated_off=(), extra=None, plan_outs=None):
     """Monitor 1. Returns True when every stateless leaf is at its fixpoint.
     leaves: the propagatable leaves found by the harness' own traversal (default sim.propagatables);
     gated_off: ids of the clock drivers whose enable wire was 0 during the clock cycle just simulated -- gating a clock
@@ -68,6 +74,9 @@ def fixpoint_check(run, sim, when, case, stats, leaves=None, gated_off=(), extra
         if off:
             stats['fixpoint_checks_in_gated_off_domain'] = stats.get('fixpoint_checks_in_gated_off_domain', 0) + 1
         outs = [p.wire for p in leaf.outPorts if p.wire is not None]
+        for w in (plan_outs or {}).get(id(leaf), ()):
+            if not any(w is o for o in outs):
+                outs.append(w)      # outputs known from the PLAN (the leaf's own port lists may be what is broken)
         before = [w.value for w in outs]
         hooks.real(leaf, 'propagate')()
         after = [w.value for w in outs]
@@ -166,6 +175,7 @@ def run_order(run, plan, bo, wo, hist, stats, meta, late=None, how='get'):
                           what='instantiating a legal plan raises %r' % (e,))
             return ('error', 0, [])
         leaves, succ = netgen.leaf_graph(b.hw)
+        plan_outs = {id(b.B[x['id']]): [b.W[w] for w in x['outs']] for x in plan['blocks'] if x.get('prim') and x['kind'] != 'cat' and x['id'] in b.B}
         inv = netgen.inversions(leaves, succ)
         cyc = netgen.comb_cycles(b.hw)
         if early and not cyc:
@@ -202,7 +212,7 @@ def run_order(run, plan, bo, wo, hist, stats, meta, late=None, how='get'):
             return ('accepted_cyclic', inv, cyc)
         ok = schedule_check(run, b, sim, leaves, succ, case, stats)
         if late is None:
-            ok = fixpoint_check(run, sim, 'construct', case, stats, leaves, extra=dict(created=how)) and ok
+            ok = fixpoint_check(run, sim, 'construct', case, stats, leaves, extra=dict(created=how), plan_outs=plan_outs) and ok
             snaps.append(netgen.wire_values(b.hw))
         else:
             stats['late_addition_cases'] = stats.get('late_addition_cases', 0) + 1
@@ -264,7 +274,7 @@ def run_order(run, plan, bo, wo, hist, stats, meta, late=None, how='get'):
                 stats['cycles_with_a_domain_gated_off'] = stats.get('cycles_with_a_domain_gated_off', 0) + 1
             elif drivers:
                 stats['cycles_with_all_gated_domains_running'] = stats.get('cycles_with_all_gated_domains_running', 0) + 1
-            ok = fixpoint_check(run, sim, 'after_clk', case, stats, leaves, set(off_now), extra=dict(clk_n=ncls)) and ok
+            ok = fixpoint_check(run, sim, 'after_clk', case, stats, leaves, set(off_now), extra=dict(clk_n=ncls), plan_outs=plan_outs) and ok
             snaps.append(netgen.wire_values(b.hw))
         for k in ('construct:propagate', 'pre:propagate', 'propagating:propagate', 'clocking:clock', 'construct:sort'):
             stats['ev_' + k] = stats.get('ev_' + k, 0) + rec.phase_counts.get(k, 0)
